@@ -36,6 +36,9 @@ pub struct Case14 {
     /// rows must then come from the prefix)
     #[serde(default)]
     pub tail_kind: u8,
+    /// with `file`: the prefix is a regular file given first, the endless part a FIFO given second
+    #[serde(default)]
+    pub two_files: bool,
 }
 fn two() -> u8 {
     2
@@ -100,7 +103,7 @@ fn tmp_dir() -> std::path::PathBuf {
 static FIFO_SEQ: AtomicU64 = AtomicU64::new(0);
 
 /// run jawk on a FIFO fed by a writer thread; returns (outcome, bytes the writer got rid of, writer hit its budget)
-fn run_fifo(args: &[String], prefix: &[u8], tail: &[u8], budget: u64) -> Result<(Outcome, u64, bool), String> {
+fn run_fifo(args: &[String], first_file: Option<&[u8]>, prefix: &[u8], tail: &[u8], budget: u64) -> Result<(Outcome, u64, bool), String> {
     let path = tmp_dir().join(format!("fifo-{}-{:?}", FIFO_SEQ.fetch_add(1, Ordering::Relaxed), std::thread::current().id()).replace(['(', ')'], ""));
     let cpath = std::ffi::CString::new(path.to_str().unwrap()).unwrap();
     if unsafe { libc::mkfifo(cpath.as_ptr(), 0o600) } != 0 {
@@ -155,8 +158,14 @@ fn run_fifo(args: &[String], prefix: &[u8], tail: &[u8], budget: u64) -> Result<
         })
     };
     let mut a = args.to_vec();
+    let first_path = path.with_extension("first.json");
+    if let Some(bytes) = first_file {
+        let _ = std::fs::write(&first_path, bytes);
+        a.push(first_path.to_str().unwrap().to_string());
+    }
     a.push(path.to_str().unwrap().to_string());
     let out = run(&a, b"");
+    let _ = std::fs::remove_file(&first_path);
     cancel.store(true, Ordering::SeqCst);
     let _ = writer.join();
     let _ = std::fs::remove_file(&path);
@@ -177,8 +186,8 @@ impl Check for C14Stop {
             4 => (0u32..5, 0u32..3).prop_map(|(n, k)| format!("{{\"n\":{},\"items\":[{{\"n\":{},\"k\":{}}}]}}", n, n, k)),
             1 => prop::sample::select(vec!["1", "\"s\"", "null", "[]", "{}", "{\"n\":-1,\"items\":[]}", "{\"items\":[1,2]}", "{\"n\":\"x\"}"]).prop_map(|s| s.to_string()),
         ];
-        (vec(pv, 0..12), any::<[bool; 5]>(), 0u8..4, 0u8..3, 0u64..=3, 0u64..=5, prop::bool::weighted(0.15), 0u8..15)
-            .prop_map(|(prefix, b, filter, select, skip, take, file, tail_items)| Case14 { prefix, set: b[0], set_macro: b[4], split: b[1], filter, select, unique: b[2], only_objects: b[3], skip, take, file, tail_items: 1 + tail_items % 3, tail_kind: [0, 0, 0, 1, 2][(tail_items / 3) as usize % 5] })
+        (vec(pv, 0..12), any::<[bool; 5]>(), 0u8..4, 0u8..3, 0u64..=3, 0u64..=5, prop::bool::weighted(0.2), 0u8..30)
+            .prop_map(|(prefix, b, filter, select, skip, take, file, tail_items)| Case14 { prefix, set: b[0], set_macro: b[4], split: b[1], filter, select, unique: b[2], only_objects: b[3], skip, take, file, tail_items: 1 + tail_items % 3, tail_kind: [0, 0, 0, 1, 2][(tail_items / 3) as usize % 5], two_files: tail_items >= 15 })
             .boxed()
     }
     fn check(&self, case: &Case14) -> CaseResult {
@@ -213,7 +222,8 @@ impl Check for C14Stop {
         let slack: u64 = if case.file { 64 * 1024 + 64 * 1024 + 16 * 1024 } else { 64 * 1024 };
         let budget = finite.len() as u64 + slack;
         let (out, pulled, over) = if case.file {
-            match run_fifo(&args, prefix.as_bytes(), &tail, budget) {
+            let r = if case.two_files { run_fifo(&args, Some(prefix.as_bytes()), b"", &tail, budget) } else { run_fifo(&args, None, prefix.as_bytes(), &tail, budget) };
+            match r {
                 Ok(x) => x,
                 Err(e) => return CaseResult::Discard(e),
             }
@@ -231,6 +241,7 @@ impl Check for C14Stop {
             .class_if(case.set, "set_in_front")
             .class_if(case.only_objects, "only_objects")
             .class_if(case.file, "fifo_file")
+            .class_if(case.file && case.two_files, "regular_file_then_fifo")
             .class_if(case.take == 0, "take_0")
             .class_if(case.split && case.tail_items == 1, "split_single_element_arrays")
             .class_if(case.tail_kind != 0, "endless_blanks_after_the_last_row")
@@ -256,7 +267,7 @@ impl Check for C14Stop {
 }
 
 pub fn run_all(ctx: &mut Ctx) {
-    ctx.rule = "skip 0..3, take 0..5 x any subset of --set/--split-by/--filter/--select/--unique/--only-objects-and-arrays x a generated finite prefix followed by an endless stream of qualifying values (each carries a fresh counter, is an object, passes the filter and splits into 1, 2 or 3 elements); stdin (instrumented reader, byte-exact count) or a FIFO given as input file (writer thread counts until EPIPE). Oracle: jawk must return Ok with exactly the rows of the finite reference run and must have pulled < len(prefix + (skip+take+2) tail values) + 64 KiB (+ pipe/BufReader capacity for the FIFO); reaching that budget = did not stop. non-trivial = at least one stage in front of the limiter and take >= 1".into();
+    ctx.rule = "skip 0..3, take 0..5 x any subset of --set/--split-by/--filter/--select/--unique/--only-objects-and-arrays x a generated finite prefix followed by an endless stream of qualifying values (each carries a fresh counter, is an object, passes the filter and splits into 1, 2 or 3 elements); stdin (instrumented reader, byte-exact count) or a FIFO given as input file (writer thread counts until EPIPE), or the prefix as a regular file followed by the FIFO as a second file. Oracle: jawk must return Ok with exactly the rows of the finite reference run and must have pulled < len(prefix + (skip+take+2) tail values) + 64 KiB (+ pipe/BufReader capacity for the FIFO); reaching that budget = did not stop. non-trivial = at least one stage in front of the limiter and take >= 1".into();
     ctx.assumptions = vec!["termination is checked as a byte budget, not with a clock".into()];
     C14Stop.run(ctx);
     let _ = std::fs::remove_dir_all(tmp_dir());
